@@ -30,7 +30,9 @@ Definition list_eqb (a b : list elem) : bool := elem_eqb (EArr a) (EArr b).
 (* CbLocal / CbLocalAcc use a LOCAL variable of the closure (every invocation starts with it unset);
    CbDefault declares four parameters with defaults (the method supplies three arguments) *)
 Inductive cbk := CbPair | CbIdx | CbIdxEven | CbEq2 | CbGe1 | CbDup | CbSelf | CbLen | CbFalse | CbTrue
-               | CbLocal | CbLocalAcc | CbDefault.
+               | CbLocal | CbLocalAcc | CbDefault
+               (* callbacks that read the CONTENT of their third argument (the array snapshot) *)
+               | CbSnap | CbNotFirst.
 Definition cb_fun (c : cbk) : callback := fun e i all =>
   match c with
   | CbPair => EArr [e; EInt i]
@@ -46,6 +48,8 @@ Definition cb_fun (c : cbk) : callback := fun e i all =>
   | CbLocal => EInt 1
   | CbLocalAcc => EInt (10 + i)
   | CbDefault => EArr [EInt i; EInt 5]
+  | CbSnap => EArr [EInt i; EArr all]
+  | CbNotFirst => EBool (negb (js_index_of all e None =? 0))
   end.
 (* closures that throw at a given index *)
 Inductive tcbk := TcAt1 | TcAt2Zero | TcAt2Pair.
